@@ -41,7 +41,7 @@ CHECKS = {
          "8.C20", "quick judges a 12,000-graph sample of the 84,885 enumerated graphs plus 4,000 seeded larger graphs, thorough all of them plus 80,000; non-identifier names and empty targets are judged for totality only; the strict Graphviz/Mermaid subset parsers are trusted",
          "TLA+ graph facts (SpecGraph.tla) + TLC-enumerated graphs replayed into tools.Analyze/Dot/Mermaid + TLC trace judge"),
  "C14": ("CrewProp.tla defines who is addressed by a message and the accounting of emissions; histories over recorder crews are driven through the real sio.Crew.ProcessMsg; presentations and dequeues are observed at verif-tag hooks and cross-checked with the machines' own logs; TLC judges DeliveredExactlyOnce, EmissionsAccounted, BreadthFirst per processed message (external and re-injected).",
-         "8.C14", "seeded histories (1-4 machines, whole routing vocabulary, emission depth <=2); sio host only so far (mcrew/mdb fan-out to be covered with the service check)",
+         "8.C14", "seeded histories (sio: 1-4 machines, whole routing vocabulary, emission depth <=2; mcrew: recorder machines with an acyclic emission graph, reserved names, non-string targets, asynchronous re-processing observed at hooks); cmd/mdb not driven",
          "TLA+ crew property spec (CrewProp.tla) + hook-recorded traces of the real crew judged by TLC"),
  "C15": ("Histories of captain operations (create, replace state, replace spec, delete, re-create; also emitted by machines) and ordinary messages are driven through the real crew; after every message the reported changes are folded into a shadow store (as sio.Stdio does) and compared with the live crew (ShadowEqualsLive), and at every boundary a second real crew is booted from the store and fed the rest (RestartEquivalent); TLC judges.",
          "8.C15", "seeded histories over 2 machine ids and 2 spec versions, 2-8 messages, restart at every boundary; store records pass through JSON",
